@@ -90,8 +90,23 @@ def run(ctx: core.Ctx):
             ops = srv.model_ingest_ops(path)[:-1]
             reals = []
             cmds = []
+            pending = []
+            if rng.random() < 0.35:
+                # every member of a multi-name group gets the same (possibly empty) name, then the group is queried: members only, one line each
+                import re as _re2
+                grp = rng.choice(["INPNAME", "SCENENAME"])
+                zone = "SYS" if grp == "INPNAME" else rng.choice(["MAIN", "ZONE2", "ZONE3", "ZONE4"])
+                pat = _re2.compile(r"INPNAME.+" if grp == "INPNAME" else r"SCENE\d+NAME")
+                members = [(s_, f_) for (s_, f_) in keys if s_ == zone and pat.fullmatch(f_)]
+                newname = rng.choice(["", "", "x", "Same Name"])
+                at = rng.randint(0, 20)
+                pending = [None] * at + [f"@{s_}:{f_}={newname}" for s_, f_ in members] + [f"@{zone}:{grp}=?"]
             for k in range(ncmd):
                 line = gen_command(rng, T, keys, names, cur=lambda s_, f_: shadow.get((s_, f_)))
+                if pending:
+                    nxt = pending.pop(0)
+                    if nxt is not None:
+                        line = nxt
                 out, exc = real.command(line)
                 ctx.case((rec, line))
                 cmds.append(line)
@@ -122,6 +137,13 @@ def run(ctx: core.Ctx):
                                   {"recording": rec, "commands": cmds[-20:]}, {"kind": "get-unanswered"})
                 if f in srv.SPECIAL:
                     # multi-value / special GET: only stored members (or the STRAIGHT override), or one error line
+                    if v == "?":
+                        errs = [o for o in out if o in ("@UNDEFINED", "@RESTRICTED")]
+                        if errs and len(out) > len(errs):
+                            ctx.violation(f"{rec}: {line!r} was answered with {len(out) - len(errs)} member line(s) AND {errs}: a query answers with stored members only, "
+                                          "or with one error line when it has none", {"recording": rec, "commands": cmds[-30:]}, {"kind": "multi-members-and-error"})
+                        elif len(errs) > 1:
+                            ctx.violation(f"{rec}: {line!r} was answered with {len(errs)} error lines", {"recording": rec, "commands": cmds[-30:]}, {"kind": "multi-errors"})
                     for o in out:
                         mo = re.fullmatch(r"@([^:]+?):([^=]+?)=(.*)", o, re.S)
                         if mo and mo.group(1) not in touched_special and mo.group(1) == s:
